@@ -459,7 +459,10 @@ def norm_xy(
     _mean = pts.mean(axis=0)
     XX = np.subtract(pts, _mean, out=out)
 
-    sx = (((XX**2).sum(axis=1) * 0.5) ** -0.5).mean()
+    # mean distance from the centroid becomes sqrt(2); a point sitting exactly
+    # on the centroid (e.g. regular 3x3 grid) must not break the scale
+    mean_dist = np.sqrt((XX**2).sum(axis=1)).mean()
+    sx = float(np.sqrt(2) / mean_dist) if mean_dist > 0 else 1.0
     XX *= sx
 
     tx, ty = -_mean * sx
